@@ -254,6 +254,12 @@ ReturnOK(RT, DA, ka) ==
 (*   argn     ka arguments for kb parameters                               *)
 (*   ret      a,ka returned variable, b declared return type               *)
 (***************************************************************************)
+(* A cell may carry two more fields that the judgement deliberately IGNORES: x, the expression context *)
+(* in which the offending expression is placed (directly, in parentheses, as element of an array        *)
+(* literal argument, as member of a struct literal argument, as argument of another call, as index, as  *)
+(* operand of a cast / operator, as return value, in a condition) and y, the statement context of the   *)
+(* statement (top level, block, loop block, then / else / else-if arms, after a label).  The typing     *)
+(* rules are context independent: Verdict(c) is the same for every x and y.                             *)
 OperandExcess(c) == Excess(c.a, c.ka) \/ (c.ctx \in {"bin", "cmp"} /\ Excess(c.b, c.kb))
 Verdict(c) ==
     CASE c.ctx = "bin"    -> IF OperandExcess(c) THEN Rej({538, 550, 551})
